@@ -48,7 +48,10 @@ def parseClass : SExp → Option Class
       pure { cts := ← parseCts cts, cpu := ← c.nat?, mem := ← m.nat?, portsExpr := e.toList, inbound := ← parseInb inb }
   | _ => none
 
-def parseMode (s r : String) : Mode := { satFixed := s != "c", rngFixed := r != "c" }
+/-- Satisfy / RangesFromExpression as probed by the harness; the resource
+    bookkeeping is the model of the code as it is (`codeCfg`, tied to the source
+    by `C05_bookkeeping_is_code`), whatever the linked code does. -/
+def parseMode (s r : String) : Mode := { satFixed := s != "c", rngFixed := r != "c", cfg := codeCfg }
 
 /-! ### printing (must equal the Go side character for character) -/
 
@@ -63,6 +66,10 @@ def optRangesSx : Option Ranges → SExp
 
 /-- `resources.Ports(...)` of what is left: sorted and squashed. -/
 def remainingSx (p : Option Ranges) : SExp := optRangesSx (p.map normalize)
+
+def optNatSx : Option Nat → SExp
+  | none => .atom "-"
+  | some n => SExp.ofNat n
 
 def taskFields (t : Task) : List SExp :=
   [.list (t.dyn.map SExp.ofNat), SExp.ofNat t.ctrl, SExp.ofNat t.cpu, SExp.ofNat t.mem, rangesSx t.request]
@@ -182,12 +189,14 @@ def doMk (m : Mode) (w : SExp → String) (ports cls : SExp) (impl : SExp) : Ans
   match parseOptRanges ports, parseClass cls with
   | some ps, some c =>
     let wn := c.wants m
-    let model : SExp := match makeTask wn ps with
+    let offerRes : Res := { cpu := some 400, mem := some 400000, ports := ps }
+    let model : SExp := match makeTask m.cfg wn ps with
       | .early p => .list [.atom "nil", remainingSx p, SExp.ofBool true]
       | .late p => .list [.atom "nil", remainingSx p, SExp.ofBool false]
       | .panic => .list [.atom "panic"]
-      | .ok t p => .list ([.atom "ok"] ++ taskFields t ++ [remainingSx p, SExp.ofBool false])
-    let offerRes : Res := { cpu := some 400, mem := some 400000, ports := ps }
+      | .ok t p =>
+        let rem := afterLaunch m.cfg offerRes t p
+        .list ([.atom "ok"] ++ taskFields t ++ [remainingSx p, optNatSx rem.cpu, optNatSx rem.mem, SExp.ofBool false])
     let wantsAsWritten : Wants := { wn with static := (parseRanges true c.portsExpr).getD [] }
     let accepted := covers offerRes wantsAsWritten
     let (v, implPanicked) : MkVerdict × Bool := match impl with
@@ -200,13 +209,13 @@ def doMk (m : Mode) (w : SExp → String) (ports cls : SExp) (impl : SExp) : Ans
       | .list (.atom "nil" :: _) => (mkVerdict ps c none false, false)
       | _ => (mkVerdict ps c none true, true)
     let spec := v.noCrash && v.templateOk && v.drawn && v.claims
+    -- port_draw_panics and static_ports_not_reserved are repaired: a crash or a doubly claimed port is a plain violation
     let hyp :=
       if spec then "-"
-      else if !v.noCrash then "port_draw_panics"
+      else if !v.noCrash then "-"
       else if !v.templateOk then
         (if !m.rngFixed && parseRanges false c.portsExpr != parseRanges true c.portsExpr then "range_end_from_start" else "-")
-      else if !v.drawn then "-"
-      else "static_ports_not_reserved"
+      else "-"
     { model := w model, spec := spec && !implPanicked, hyp }
   | _, _ => bad
 
@@ -264,15 +273,14 @@ def doRound (m : Mode) (w : SExp → String) (cls root offers descs : SExp) (imp
         let launchedDiffer := out.accepts.any fun a => a.launches.any fun l => match l.desc.cls with
           | some c => classDiffers c
           | none => false
+        -- port_draw_panics, cpu_mem_not_subtracted and static_ports_not_reserved are repaired (C05_round_spec proves
+        -- every clause for the code as it is): a crash, an overdrawn offer or a doubly claimed port is a plain violation
         let hyp :=
           if v.all then "-"
-          else if !v.noCrash then "port_draw_panics"
+          else if !v.noCrash then "-"
           else if !v.constraintsOk then (if m.satFixed then "-" else "satisfy_last_constraint_decides")
           else if !v.templateOk then (if !m.rngFixed && launchedDiffer then "range_end_from_start" else "-")
-          else if !v.drawn then "-"
-          else if !v.declines then "-"
-          else if !v.sums then "cpu_mem_not_subtracted"
-          else "static_ports_not_reserved"
+          else "-"
         { model, spec := v.all, hyp }
     | none => bad
   | _, _, _ => bad
